@@ -44,7 +44,7 @@ PROPS = {
                             "re-prove them"]},
     "C13": {"streams": [_HUB_STREAM], "oracles": ["hub", "swarm"], "rule": _HUB_RULE, "assumptions": _HUB_ASSUME, "oracle_n": {"quick": 100, "thorough": 2000}},
     "C12": {"streams": [_HUB_STREAM], "oracles": ["hub", "swarm"], "rule": _HUB_RULE, "assumptions": _HUB_ASSUME, "oracle_n": {"quick": 100, "thorough": 2000}},
-    "C11": {"streams": [_HUB_STREAM], "oracles": ["hub", "swarm"], "rule": _HUB_RULE, "assumptions": _HUB_ASSUME, "oracle_n": {"quick": 100, "thorough": 2000}},
+    "C11": {"streams": [_HUB_STREAM, _FRAG_STREAM], "oracles": ["hub", "swarm"], "rule": _HUB_RULE, "assumptions": _HUB_ASSUME, "oracle_n": {"quick": 100, "thorough": 2000}},
     "C14": {"streams": [_HUB_STREAM], "oracles": ["hub"], "rule": _HUB_RULE, "level": "proof",
             "assumptions": _HUB_ASSUME + ["data-race freedom under the Go memory model is NOT claimed (no model represents happens-before); "
                                           "only buffer ownership in the queue and hubs is proved"], "oracle_n": {"quick": 100, "thorough": 2000}},
